@@ -374,12 +374,23 @@ def ft2(F, R):
                 if v[0] == "agg" and v[2] and v[2].endswith("Option::Some") and has_sub(v, lambda q: q[0] == "call" and q[1] and path_matches(q[1], "BlockCount::offset_bytes")):
                     dups.append((bb, ii, v))
         okd = False
+        pat2 = ("call", "Add::add", [("place", ("arg", 1), ("*", "lba_start")), ("call", "BlockCount::offset_bytes", ["$base", "$off2"])])
+        is_geo = lambda x: (lambda y: y[0] == "place" and last_field(y) == "second_fat_start" and strip_refs(y[1])[:2] == ("arg", 1))(strip_refs(x))
         for bb, ii, v in dups:
-            pat2 = ("call", "Add::add", [("place", ("arg", 1), ("*", "lba_start")), ("call", "BlockCount::offset_bytes", ["$base", "$off2"])])
             e2 = tmatch(v[3][0], pat2)
             if e2 is not None and env is not None and e2["$off2"] == env["$off"] and "second_fat_start" in tstr(e2["$base"]):
                 g, _ = guarded(fn, bb, lambda g: g.kind == "variant" and g.variant == "Some" and "second_fat_start" in tstr(g.term))
                 okd = g
+        # ... or self.second_fat_start.map(|s| lba_start + s.offset_bytes(off)): Some exactly when the geometry has a second FAT
+        from .mir import inline_closure
+        for bb, t2 in fn.calls():
+            if bb in arms[arm] and (callee_of(t2) or "").endswith("Option::map"):
+                ct = fn.call_term(t2, bb)
+                if is_geo(ct[2][0]):
+                    body = inline_closure(F, ct[2][1], [("place", strip_refs(ct[2][0]), ("as:Some", "0"))])
+                    e2 = tmatch(body, pat2) if body is not None else None
+                    if e2 is not None and env is not None and e2["$off2"] == env["$off"] and is_geo(strip_refs(e2["$base"])[1] if strip_refs(e2["$base"])[0] == "place" and tuple(strip_refs(e2["$base"])[2][-2:]) == ("as:Some", "0") and len(strip_refs(e2["$base"])[2]) == 2 else e2["$base"]) or (e2 is not None and env is not None and e2["$off2"] == env["$off"] and "second_fat_start as Some" in tstr(e2["$base"])):
+                        okd = True
         R.require(okd, fn, arm + ":duplicate-index", "duplicate FAT block must be lba_start + second_fat_start.offset_bytes(<same offset>) under second_fat_start == Some", fn.loc(b))
     # write-back discipline
     wbd = [(b, t) for b, t in fn.calls() if call_matches(t, ("BlockCache::write_back_with_duplicate",))]
@@ -415,10 +426,20 @@ def _arm_consts(fn, blocks):
                     lt = fn.locals[s["p"]["l"]]["ty"]
                     if "usize" in lt:
                         sig["stride"].add(r[1])
-                if op in ("Le", "Lt", "Ge", "Gt") and r[0] == "c" and r[1] > 256:
-                    sig["bound"].add(r[1])
+                # scan bound as the largest admitted offset: x <= c / x < c+1 / c >= x / c+1 > x
+                if op in ("Le", "Lt") and r[0] == "c" and r[1] > 256:
+                    sig["bound"].add(r[1] if op == "Le" else r[1] - 1)
+                if op in ("Ge", "Gt") and l[0] == "c" and l[1] > 256:
+                    sig["bound"].add(l[1] if op == "Ge" else l[1] - 1)
                 if op == "BitAnd" and r[0] == "c" and r[1] > 0xFFFF:
                     sig["mask"].add(r[1])
+                if op == "BitAnd" and l[0] == "c" and l[1] > 0xFFFF:
+                    sig["mask"].add(l[1])
+            if rv["k"] == "Aggregate" and rv.get("adt", "").endswith("ops::Range") and len(rv["ops"]) == 2:
+                # half-open o..o+w covers the same bytes as o..=o+(w-1)
+                hi = fn.term_of_operand(rv["ops"][1], b)
+                if tmatch(hi, ("bin", "Add", "_", ("c", "_"))) is not None and isinstance(hi[3][1], int) and hi[3][1] <= 8:
+                    sig["extent"].add(hi[3][1] - 1)
         t = blk["term"]
         if t["k"] == "Call":
             c = callee_of(t) or ""
@@ -477,6 +498,8 @@ def ft4(F, R):
         dst = fn.term_of_operand(t["args"][0], b)
         pat = ("bin", "BitOr", ("bin", "BitAnd", ("call", "ByteOrder::read_u32", ["$src"]), ("c", 0xF0000000)), ("bin", "BitAnd", "$entry", ("c", 0x0FFFFFFF)))
         env = tmatch(val, pat)
+        if env is None and val[0] == "bin" and val[1] == "BitOr":
+            env = tmatch(("bin", "BitOr", val[3], val[2]), pat)      # | is commutative
         ok = env is not None
         R.require(ok, fn, "fat32:nibble", "FAT32 entry must be written as (existing & 0xF000_0000) | (entry & 0x0FFF_FFFF); got %s" % tstr(val), fn.loc(b))
         if ok:
@@ -541,13 +564,9 @@ def ft5(F, R):
             return None
         if kind == "edge":
             f, b, i, g = payload
-            if g.kind == "bool" and g.term[0] == "cmp" and g.term[1] == "Lt" and g.truth is True:
-                a, bb = g.term[2], g.term[3]
-                if has_sub(a, lambda q: q[0] == "var" and q[1] == cur) and "end_cluster" in tstr(bb):
-                    return ("checked",)
-            if g.kind == "bool" and g.term[0] == "cmp" and g.term[1] == "Ge" and g.truth is False:
-                a, bb = g.term[2], g.term[3]
-                if has_sub(a, lambda q: q[0] == "var" and q[1] == cur) and "end_cluster" in tstr(bb):
+            from .ev import cmp_forms
+            for (op, a, bb, truth) in cmp_forms(g):
+                if op == "Lt" and truth and has_sub(a, lambda q: q[0] == "var" and q[1] == cur) and has_sub(bb, lambda q: q[:2] == ("arg", 4)):
                     return ("checked",)
             return None
 
@@ -1356,6 +1375,9 @@ def is4(F, R):
             if g.kind in ("variant", "variants") and g.raw[0] == "discr":
                 # Some/None test of the Option itself
                 inner = strip_refs(g.raw[1])
+                # ... also through the Option adaptors that keep Some/None (as_mut, as_ref, as_deref..)
+                while inner[0] == "call" and inner[1] and inner[1].startswith("core::option::") and inner[1].split("::")[-1] in ("as_mut", "as_ref", "as_deref", "as_deref_mut", "copied", "cloned") and len(inner[2]) == 1:
+                    inner = strip_refs(inner[2][0])
                 if last_field(inner) == "free_clusters_count":
                     continue
                 R.bad(f, "count-variant-test", "control flow depends on %r" % g, f.loc(gb))
